@@ -109,4 +109,39 @@ DrawFails(img, areas, mode, at, size, calls) ==
              IF c0 = {} THEN {}
              ELSE IF mode = 1 /\ \E o \in CenterOffsets(at, sz) : SemCodes(calls, o, sz, want) = {} THEN {}
              ELSE c0)
+
+\* The same drawable drawn on the target seen through .clipped(clip) (the target itself is much larger than
+\* everything drawn): exactly the part of the picture inside clip arrives, streams are still exact.
+SemCodesClip(calls, o, sz, want(_), clip) ==
+  LET D == { p \in { <<o[1] + q[1], o[2] + q[2]>> : q \in PointsOf(<<0, 0, sz[1], sz[2]>>) } : InRect(clip, p) }
+      T == Touched(calls)
+  IN   (IF T \subseteq D THEN {} ELSE {"clipped_touches_outside"})
+  \cup (IF D \subseteq T THEN {} ELSE {"clipped_misses_pixel"})
+  \cup (IF \A p \in D \cap T : FinalAt(calls, p) = Some(want(<<p[1] - o[1], p[2] - o[2]>>))
+        THEN {} ELSE {"clipped_wrong_colour"})
+ClipDrawFails(img, areas, mode, at, size, clip, calls) ==
+  LET abs == AbsChain(img, areas)
+      off == abs[1]
+      sz  == abs[2]
+      empty == sz[1] = 0 \/ sz[2] = 0
+      want(q) == Pixel(img, <<off[1] + q[1], off[2] + q[2]>>)
+      o0 == IF mode = 0 THEN at ELSE <<at[1] - ((sz[1] - 1) \div 2), at[2] - ((sz[2] - 1) \div 2)>>
+  IN   (IF (empty /\ (size[1] = 0 \/ size[2] = 0)) \/ (~empty /\ size = sz) THEN {} ELSE {"size"})
+  \cup (IF \E i \in 1..Len(calls) : calls[i].m = "clear" THEN {"clear_called"} ELSE {})
+  \cup StreamCodes(calls)
+  \cup (IF empty THEN (IF Touched(calls) = {} THEN {} ELSE {"clipped_touches_outside"})
+        ELSE LET c0 == SemCodesClip(calls, o0, sz, want, clip) IN
+             IF c0 = {} THEN {}
+             ELSE IF mode = 1 /\ \E o \in CenterOffsets(at, sz) : SemCodesClip(calls, o, sz, want, clip) = {} THEN {}
+             ELSE c0)
+
+\* ImageRaw::new on a huge size given as 16-bit halves <<whi, wlo, hhi, hlo>> with a buffer of len <= 64 bytes:
+\* a size with w, h >= 1 and a side above 4096 requires more than 512 bytes
+HugeNewWF(it) == it[5] \in 0..64 /\ it[6] \in {0, 1} /\ \A k \in 1..4 : it[k] \in 0..65535
+HugeNewFails(bpp, it) ==
+  LET zero  == (it[1] = 0 /\ it[2] = 0) \/ (it[3] = 0 /\ it[4] = 0)
+      small == it[1] = 0 /\ it[3] = 0 /\ it[2] <= 4096 /\ it[4] <= 4096
+      fits  == IF zero THEN it[5] = 0 ELSE IF small THEN it[5] = ExpectedLen(it[2], it[4], bpp) ELSE FALSE
+  IN   (IF it[6] = 1 /\ ~fits THEN {"new_accepts_wrong_length"} ELSE {})
+  \cup (IF it[6] = 0 /\ fits THEN {"new_rejects_required_length"} ELSE {})
 =============================================================================
